@@ -21,8 +21,8 @@ from vf.common import Ctx, Failure, Stats, drive, run_sharded, scratch_dir
 PROP = "C04"
 LEVEL = "exploration"
 RULE = (
-    "strings: every sequence of <=3 atoms (quick and thorough; thorough adds every string of exactly 4 atoms at the assignment and list-item sites, 27.7M round trips, and an index-sampled slice of length 4 at the other sites) over "
-    "a 61-atom alphabet with one representative per lexer class, placed at 12 (position,key) sites "
+    "strings: every sequence of <=3 atoms (quick and thorough; thorough adds every string of exactly 4 atoms at the assignment and list-item sites, 31.5M round trips, and an index-sampled slice of length 4 at the other sites) over "
+    "a 63-atom alphabet with one representative per lexer class, placed at 12 (position,key) sites "
     "(assignment with and without YAML frontmatter/META/nested META/list of 1,2,3 items/inline-map value x keys K,PATTERN,REGEX); plus Hypothesis "
     "text<=60, near-bare strings (1-2 edits away from annotation/expression/variable/version shapes), ints, finite floats, bools, None; plus octave_write(changes/mutations) then read of the file. "
     "Oracle: parse(emit(doc)) returns the same value with the same type (str after NFC) and the sentinel neighbour "
@@ -41,6 +41,7 @@ ATOMS = [
     "́", "é", "😀", "n", "t", "e",
     "true", "false", "null", "vs", "//", "::", "->", "<->", "===",
     "\x0c", "\x85", "\u2028",
+    "u0041", "x41",  # after a backslash: text that looks like a \uXXXX / \xXX escape sequence
 ]
 SITES = [
     ("fm_assign", "K"), ("assign", "K"), ("assign", "PATTERN"), ("assign", "REGEX"), ("meta", "K"), ("metanested", "K"),
@@ -274,7 +275,7 @@ def shard_strings(ctx: Ctx, shard: int, nshards: int, max_len: int) -> Stats:
 
 
 def shard_len4(ctx: Ctx, shard: int, nshards: int) -> Stats:
-    """Thorough: EVERY string of exactly 4 atoms at two sites (plain assignment value and list item): 2 x 61^4 round trips."""
+    """Thorough: EVERY string of exactly 4 atoms at two sites (plain assignment value and list item): 2 x 63^4 round trips."""
     st = Stats()
     sites = [("assign", "K"), ("list2", "")]
     for i, tup in enumerate(itertools.product(ATOMS, repeat=4)):
@@ -476,7 +477,7 @@ def run(ctx: Ctx) -> Stats:
     total.merge(run_sharded(shard_write, ctx, extra=(ctx.pick(150, 2500),)))
     if not ctx.quick:
         total.merge(run_sharded(shard_len4, ctx, nshards=ctx.workers * 8))
-        total.notes.append("strings of exactly 4 atoms enumerated completely at the sites assign/K and list item (2 x 61^4); at the other ten sites "
+        total.notes.append("strings of exactly 4 atoms enumerated completely at the sites assign/K and list item (2 x 63^4); at the other ten sites "
                            "length-4 strings are index-sampled with the seed (3M), not exhaustive")
         total.merge(run_sharded(shard_sampled4, ctx, extra=(3_000_000,)))
     return total
